@@ -24,9 +24,10 @@ uint64_t gdsii_real_from_double(double value) {
         u8_1 = 0x80;
         value = -value;
     }
-    const double fexp = 0.25 * log2(value);
-    double exponent = ceil(fexp);
-    if (exponent == fexp) exponent++;
+    // value is in [2^(bits - 1), 2^bits): the smallest power of 16 above it, without the rounding of log2
+    int bits;
+    frexp(value, &bits);
+    const double exponent = ceil(0.25 * bits);
     const uint64_t mantissa = (uint64_t)(value * pow(16, 14 - exponent));
     u8_1 += (uint8_t)(64 + exponent);
     const uint64_t result = ((uint64_t)u8_1 << 56) | (mantissa & 0x00FFFFFFFFFFFFFF);
